@@ -158,12 +158,16 @@ func genFrame(r *hx.Rand, max, param int) codec.Frame {
 			sizes = append(sizes, clamp(r.Range(1, 2*max)))
 		}
 	}
-	fr := make(codec.Frame, len(sizes))
-	for i, n := range sizes {
+	fr := make(codec.Frame, 0, len(sizes))
+	total := 0
+	for _, n := range sizes {
 		if n > 64*avail { // keep the packet count per AU moderate; the cap boundary is met with larger limits
 			n = 64*avail - r.Intn(3)
 		}
-		fr[i] = notADTS(r.Bytes(n))
+		if total += n; total > 12000 && len(fr) > 0 { // keep case lines moderate
+			break
+		}
+		fr = append(fr, notADTS(r.Bytes(n)))
 	}
 	return fr
 }
